@@ -83,6 +83,16 @@ func c04Count(n int) []byte {
 func c04SkipExact(depth int) {
 	tag := vapi.Choice("xtag", 3) * 7 // 0, 7, 14
 	f := c04Field(tag, depth)
+	if vapi.Bool("last") {
+		// the unknown field is the last thing in the input: probing for an absent optional member
+		// with a higher tag skips it, ends exactly at the end of the input and reports absence
+		r := codec.NewReader(append([]byte{}, f...))
+		o := int8(77)
+		err := r.ReadInt8(&o, 200, false)
+		vapi.Check(err == nil, "skip: an unknown field ending exactly at the end of the input is skipped")
+		vapi.Check(o == 77, "skip: an absent optional after a trailing unknown field leaves the target alone")
+		return
+	}
 	sent := vapi.Byte("sent")
 	vapi.Assume(sent != 0)
 	data := append(append([]byte{}, f...), wHead(tyByte, 200)...)
